@@ -44,7 +44,8 @@ RULE = ("sequential case = history of <= 15 steps by 2-3 clients (raw peers, opt
         "they read the context and again after they set their annotations.  Non-trivial: a call that sets annotations and raises, or "
         "a oneway call/batch that sets them, is followed by a generated step that produces an answer to a different call or client "
         "(sequential), or >= 2 annotating calls overlap in a gated round (concurrent); distinct = distinct case JSON")
-ASSUMPTIONS = ["the daemon's own annotations() hook returns {} (so every annotation on an answer must come from a method)",
+ASSUMPTIONS = ["the daemon's own annotations() hook returns {} or (half of the cases) one and the same dict object with one entry of its own, which is "
+               "ignored on every answer (so every other annotation on an answer must come from a method)",
                "TCP loopback: a connection is identified by the peer's local (host, port) and by a unique handshake string seen by validateHandshake",
                "a request without correlation id gets a server generated one: only demanded that it is not the id of any other request of the case",
                "holding back the start of a oneway thread is done by patching Thread.start on Pyro5.server._OnewayCallThread inside the test process (arbitrary start latency is a legal schedule)",
@@ -67,6 +68,7 @@ RELEASE_IN = {}     # token -> [tokens of held oneway calls whose threads this c
 GONE_IN = {}        # token -> Event set by the server while it is still decoding the request of a "gone" step
 GONE_GO = {}        # token -> Event the decoder waits for (set by the harness once the peer has reset the connection)
 GONE_CLASS = "verif.c12.PeerGoesAwayNow"
+DAEMON_TAG, DAEMON_VAL = "DMN~", b"from the daemon's own annotations() hook"
 BACKEND = {}        # uri of the second daemon (target of nested calls)
 _tokens = itertools.count(1)
 _serial = itertools.count(1)
@@ -347,6 +349,8 @@ class _Run(object):
         return r
 
     def observe(self, carrier, conn, what, allowed_tokens, anns, req=None, msg=None):
+        if getattr(self, "daemon_ann", False):
+            anns = [(k, v) for k, v in anns if not (k == DAEMON_TAG and bytes(v) == DAEMON_VAL)]      # the daemon's own entry
         allowed = {tag_of(t): tagval(t) for t in allowed_tokens}
         with self.lock:
             self.obs.append({"carrier": carrier, "client": conn.idx, "what": what, "allowed": allowed, "tokens": list(allowed_tokens),
@@ -988,6 +992,11 @@ def run_case(case, keep=False):
     S = L["served"]
     _reset_case_state(S)
     r = _Run(L, case)
+    # the daemon's own annotations() hook: nothing, or a dict the application keeps around (the SAME object every time) whose one
+    # entry legitimately rides on every answer; what a method sets must still go out with its own reply only
+    persistent = {DAEMON_TAG: DAEMON_VAL}
+    S.daemon.v_annotations = (lambda: persistent) if case.get("daemon_ann") else None
+    r.daemon_ann = bool(case.get("daemon_ann"))
     try:
         try:
             if case.get("kind") == "conc":
@@ -996,6 +1005,7 @@ def run_case(case, keep=False):
                 _run_seq(r, case)
         finally:
             r.cleanup()
+            S.daemon.v_annotations = None
         V = r.evaluate()
         if not S.loop_alive():
             V.append(Violation("C12:loop-died", "request loop terminated"))
@@ -1055,7 +1065,7 @@ def seq_cases(cfg):
     def build(t):
         head, steps = t
         return {"kind": "seq", "servertype": servertype, "pool": pool, "min": mn, "nclients": 2 + head % 2, "proxy": (head // 2) % 4 - 1 if (head // 2) % 4 < 3 else -1,
-                "steps": [decode_step(x) for x in steps]}
+                "daemon_ann": (head >> 3) & 1, "steps": [decode_step(x) for x in steps]}
     return st.tuples(st.integers(0, 15), st.lists(st.integers(0, STEP_SPACE - 1), min_size=2, max_size=15)).map(build)
 
 
@@ -1089,7 +1099,7 @@ def conc_cases(cfg):
         for g, calls in rounds:
             out.append({"gate": 1 if g % 4 else 0, "reconnect": [i for i in range(n) if (g >> (2 + i)) & 1 and (g >> 6) & 1],
                         "calls": [decode_conc_call(x) for x in calls[:n]]})
-        return {"kind": "conc", "servertype": servertype, "pool": pool, "min": mn, "nclients": n, "kinds": kinds, "rounds": out}
+        return {"kind": "conc", "servertype": servertype, "pool": pool, "min": mn, "nclients": n, "kinds": kinds, "rounds": out, "daemon_ann": (head >> 4) & 1}
     rnd = st.tuples(st.integers(0, 127), st.lists(st.integers(0, CALL_SPACE - 1), min_size=3, max_size=3))
     return st.tuples(st.integers(0, 63), st.lists(rnd, min_size=1, max_size=6)).map(build)
 
